@@ -349,7 +349,9 @@ def splitLines (src : List Char) : List (List Char) := splitLinesAux [] src
 /-- Remove the blanks (character 32) at the right end (§31 `last_nonblank`). -/
 def trimRight : List Char → List Char
   | [] => []
-  | c :: t => if c = ' ' ∧ trimRight t = [] then [] else c :: trimRight t
+  | c :: t =>
+    let r := trimRight t
+    if c = ' ' ∧ r = [] then [] else c :: r
 
 /-- The buffer TeX scans for a source line: trimmed, plus the end-line character (§360). -/
 def buffer (cfg : Cfg) (l : List Char) : List Char :=
